@@ -119,4 +119,73 @@ theorem has_iff_mem_keys (d : PDict κ α) (k : κ) : has d k = true ↔ k ∈ k
       simp only [this, false_or]
       exact ih
 
+theorem get?_erase_ne (d : PDict κ α) {k k' : κ} (h : k' ≠ k) : get? (erase d k) k' = get? d k' := by
+  induction d with
+  | nil => simp [erase, get?]
+  | cons x xs ih =>
+    obtain ⟨k'', v''⟩ := x
+    simp only [erase]
+    split
+    · next hk => subst hk; simp [get?, Ne.symm h]
+    · simp only [get?]
+      split
+      · rfl
+      · exact ih
+
+theorem keys_erase_subset (d : PDict κ α) (k : κ) : ∀ x ∈ keys (erase d k), x ∈ keys d := by
+  intro x hx
+  simp only [keys, List.mem_map] at hx ⊢
+  obtain ⟨e, he, rfl⟩ := hx
+  exact ⟨e, mem_erase he, rfl⟩
+
+theorem wf_set {d : PDict κ α} (h : WF d) (k : κ) (v : α) : WF (set d k v) := by
+  unfold WF at *
+  by_cases hk : has d k = true
+  · rw [keys_set_of_has v hk]; exact h
+  · have : has d k = false := by simpa using hk
+    rw [keys_set_of_not_has v this]
+    rw [List.nodup_append]
+    refine ⟨h, by simp, ?_⟩
+    intro a ha b hb
+    simp at hb; subst hb
+    intro e; subst e
+    exact hk ((has_iff_mem_keys d a).mpr ha)
+
+theorem wf_erase {d : PDict κ α} (h : WF d) (k : κ) : WF (erase d k) := by
+  unfold WF at *
+  induction d with
+  | nil => simp [erase, keys]
+  | cons x xs ih =>
+    obtain ⟨k', v'⟩ := x
+    simp only [keys, List.map_cons, List.nodup_cons] at h
+    simp only [erase]
+    split
+    · exact h.2
+    · simp only [keys, List.map_cons, List.nodup_cons]
+      refine ⟨?_, ih h.2⟩
+      intro hm
+      exact h.1 (keys_erase_subset xs k k' hm)
+
+theorem has_erase_self {d : PDict κ α} (h : WF d) (k : κ) : has (erase d k) k = false := by
+  unfold WF at h
+  induction d with
+  | nil => simp [erase, has, get?]
+  | cons x xs ih =>
+    obtain ⟨k', v'⟩ := x
+    simp only [keys, List.map_cons, List.nodup_cons] at h
+    simp only [erase]
+    split
+    · next hk =>
+      subst hk
+      cases hh : has xs k' with
+      | false => rfl
+      | true => exact absurd ((has_iff_mem_keys xs k').mp hh) h.1
+    · next hk => simpa [has, get?, hk] using ih h.2
+
+theorem has_set_ne (d : PDict κ α) {k k' : κ} (v : α) (h : k' ≠ k) : has (set d k v) k' = has d k' := by
+  simp [has, get?_set_ne d v h]
+
+theorem has_erase_ne (d : PDict κ α) {k k' : κ} (h : k' ≠ k) : has (erase d k) k' = has d k' := by
+  simp [has, get?_erase_ne d h]
+
 end AioMySensors.PDict
